@@ -590,9 +590,7 @@ impl Chain {
                 if self.w.denom_admin.get(&c.denom) != Some(&sender) {
                     return Err("not the denom admin".into());
                 }
-                if amt == 0 {
-                    return Err("zero mint".into());
-                }
+                // lenient on zero (like the bank): the contract's own zero-mint guard is what C04 is about
                 *self.w.supply.get_mut(&c.denom).unwrap() += amt;
                 credit(&mut self.w.bank, &to, &c.denom, amt);
                 eff.push(Effect::Mint {
